@@ -50,37 +50,29 @@ Example exS_defaults_beyond_span :
   resolves_start Z exS_desc_5leads exA_span (Some 1) 1.
 Proof. repeat split; vm_compute; try reflexivity; lia. Qed.
 
-(* FINDING (kept, known_findings.d/C05.json): iter_periods turns the DEFAULT start / end positions into labels (span[lags],
-   span[-1-leads]) and looks the labels up again.  On a span whose last label is carried by periods 2 and 3:
-   list — the default end comes back as position 2, period 3 is silently left unsolved; NumPy array — KeyError;
-   pandas Index — the lookup answers with a slice and `slice + 1` raises TypeError.  Nothing of this involves a label
-   supplied by the caller. *)
+(* FIXED by 7cd6323 (was the finding "defaults looked up by label"): the default first / last periods are positions.  On a span whose
+   last label is carried by periods 2 and 3, solve() with no arguments visits all four periods on a list, a NumPy array and a
+   pandas Index alike; the hypotheses of solve_defaults_any_span hold although the span has a repeated label *)
 Definition exS_dup_last : list Z := [0; 1; 2; 2].
 Example exS_default_end_repeated_label :
-  f_solve exA_scripts exA_desc (exA_opts ERaise) 0 exS_dup_last [] None None exA_state
-  = (mkState [[1.5%float; 1.5%float; 1.5%float; 0%float]] [Solved; Solved; Solved; Unsolved] [2; 2; 2; -1]
-             [EvBefore 0; EvPass 0 1; EvPass 0 2; EvAfter 0 2; EvBefore 1; EvPass 1 1; EvPass 1 2; EvAfter 1 2;
-              EvBefore 2; EvPass 2 1; EvPass 2 2; EvAfter 2 2],
-     Ret (mkRes 3%nat [(0, 0, true); (1, 1, true); (2, 2, true)])) /\
-  f_solve exA_scripts exA_desc (exA_opts ERaise) 1 exS_dup_last [] None None exA_state = (exA_state, Raise KeyError) /\
-  f_solve exA_scripts exA_desc (exA_opts ERaise) 3 exS_dup_last [] None None exA_state = (exA_state, Raise TypeError).
-Proof. repeat split; vm_compute; reflexivity. Qed.
-
-(* "solve() with default start / end visits every period from position lags to position len-1-leads" is REFUTED for spans with
-   a repeated label: here lags = leads = 0, four periods, and period 3 is not visited (list) / nothing is visited (NumPy, pandas) *)
-Lemma default_range_repeated_label_refuted :
-  exists sc d o span s,
-    lags d = 0%nat /\ leads d = 0%nat /\ length span = 4%nat /\ length (status s) = 4%nat /\ min_iter o <= max_iter o /\
-    (exists res, snd (f_solve sc d o 0 span [] None None s) = Ret res /\ r_len res = 3%nat /\
-                 nth_error (status (fst (f_solve sc d o 0 span [] None None s))) 3 = Some Unsolved) /\
-    snd (f_solve sc d o 1 span [] None None s) = Raise KeyError /\
-    snd (f_solve sc d o 3 span [] None None s) = Raise TypeError.
+  (forall kind, In kind [0%nat; 1%nat; 3%nat] ->
+     snd (f_solve exA_scripts exA_desc (exA_opts ERaise) kind exS_dup_last [] None None exA_state)
+     = Ret (mkRes 4%nat [(0, 0, true); (1, 1, true); (2, 2, true); (2, 3, true)]) /\
+     fst (f_solve exA_scripts exA_desc (exA_opts ERaise) kind exS_dup_last [] None None exA_state)
+     = fst (f_solve exA_scripts exA_desc (exA_opts ERaise) 0 exA_span [] None None exA_state)) /\
+  nodup_b exS_dup_last = false /\ (lags exA_desc + leads exA_desc < length exS_dup_last)%nat.
 Proof.
-  exists exA_scripts, exA_desc, (exA_opts ERaise), exS_dup_last, exA_state.
-  destruct exS_default_end_repeated_label as (H0 & H1 & H3). rewrite H0, H1, H3.
-  repeat split; try reflexivity; try (vm_compute; congruence).
-  eexists. split; [reflexivity|]. split; reflexivity.
+  split; [intros kind [<-|[<-|[<-|[]]]]; split; vm_compute; reflexivity|]. split; [vm_compute; reflexivity|]. vm_compute. lia.
 Qed.
+
+(* a label GIVEN by the caller is still looked up: end = the repeated label resolves to its first occurrence on a list (period 3 is
+   not visited), is rejected with KeyError on a NumPy array and on a pandas Index *)
+Example exS_given_repeated_label :
+  snd (f_solve exA_scripts exA_desc (exA_opts ERaise) 0 exS_dup_last [] None (Some 2) exA_state)
+  = Ret (mkRes 3%nat [(0, 0, true); (1, 1, true); (2, 2, true)]) /\
+  f_solve exA_scripts exA_desc (exA_opts ERaise) 1 exS_dup_last [] None (Some 2) exA_state = (exA_state, Raise KeyError) /\
+  f_solve exA_scripts exA_desc (exA_opts ERaise) 3 exS_dup_last [] None (Some 2) exA_state = (exA_state, Raise KeyError).
+Proof. repeat split; vm_compute; reflexivity. Qed.
 
 (* the sharp guard (solve_unique_ends): the inner periods 1 and 2 share a label, the two end labels are unambiguous —
    solve(start=label of 0, end=label of 3) and solve() both visit 0..3 on every span type *)
